@@ -10,6 +10,8 @@ def work(item, opts):
         case = universe.case(item)
     elif "opt" in item:
         case = item
+    elif "b" in item:
+        case = universe.battery()[item["b"]]
     elif "e" in item:
         case = universe.case_ext(item["e"])
         for k in ("mode", "workers"):
